@@ -477,6 +477,8 @@ class StreamResetOutgoingParam:
 
     @classmethod
     def parse(cls, data: bytes) -> "StreamResetOutgoingParam":
+        if len(data) < 12 or len(data) % 2:
+            raise ValueError("Outgoing SSN reset request has an invalid length")
         request_sequence, response_sequence, last_tsn = unpack_from("!LLL", data)
         streams = []
         for pos in range(12, len(data), 2):
@@ -500,6 +502,8 @@ class StreamAddOutgoingParam:
 
     @classmethod
     def parse(cls, data: bytes) -> "StreamAddOutgoingParam":
+        if len(data) < 8:
+            raise ValueError("Add outgoing streams request has an invalid length")
         request_sequence, new_streams, reserved = unpack_from("!LHH", data)
         return cls(request_sequence=request_sequence, new_streams=new_streams)
 
@@ -514,6 +518,8 @@ class StreamResetResponseParam:
 
     @classmethod
     def parse(cls, data: bytes) -> "StreamResetResponseParam":
+        if len(data) < 8:
+            raise ValueError("Re-configuration response has an invalid length")
         response_sequence, result = unpack_from("!LL", data)
         return cls(response_sequence=response_sequence, result=result)
 
@@ -993,7 +999,12 @@ class RTCSctpTransport(AsyncIOEventEmitter):
             for param in chunk.params:
                 cls = RECONFIG_PARAM_TYPES.get(param[0])
                 if cls is not None:
-                    await self._receive_reconfig_param(cls.parse(param[1]))
+                    try:
+                        reconfig_param = cls.parse(param[1])
+                    except ValueError:
+                        self.__log_debug("x Ignoring malformed RE-CONFIG parameter")
+                        continue
+                    await self._receive_reconfig_param(reconfig_param)
 
         # server
         elif isinstance(chunk, InitChunk) and self.is_server:
